@@ -156,9 +156,61 @@ def build(ctx):
     geometry_optional = {"atom_site_label", "atom_site_type_symbol", "atom_site_fract_x", "atom_site_fract_y", "atom_site_fract_z", "atom_site_occupancy"}
     missing += sorted(k for k in geometry_optional if k not in written or k not in read_optional)
     symm_ok = "symmetry_equiv_pos_as_xyz" in written and "symmetry_equiv_pos_as_xyz" in ast.unparse(f_fromcif.node)
-    ctx.ground("crystal.Crystal.to_cif_data/keys.agree", not missing and symm_ok and len(read_required) >= 6,
-               clause="every CIF item from_cif_data needs (cell lengths and angles, atom-site label/symbol/fract/occupancy, symmetry operations) is written by to_cif_data under the same name",
-               detail={"written": sorted(written), "required_by_reader": sorted(read_required), "missing": missing}, witness=missing, fn=f_tocif)
+    # the same statement decided on the running code, independent of how reader and writer are spelled: the dictionary written for a crystal is read through a recording
+    # dictionary; every item the reader consumes must have been written, and the geometry items must all have been consumed
+    def keys_runtime():
+        from chmpy.crystal import Crystal, UnitCell, SpaceGroup, AsymmetricUnit
+        from chmpy import Element
+
+        class Recording(dict):
+            def __init__(self, *a):
+                super().__init__(*a)
+                self.hits, self.misses = set(), set()
+
+            def _note(self, k):
+                (self.hits if dict.__contains__(self, k) else self.misses).add(k)
+
+            def __getitem__(self, k):
+                self._note(k)
+                return dict.__getitem__(self, k)
+
+            def get(self, k, default=None):
+                self._note(k)
+                return dict.get(self, k, default)
+
+            def __contains__(self, k):
+                self._note(k)
+                return dict.__contains__(self, k)
+        problems = []
+        for number, choice in ((14, ""), (62, ""), (146, "R")):
+            sg = SpaceGroup(number, choice=choice) if choice else SpaceGroup(number)
+            cell = UnitCell.from_lengths_and_angles([7.1, 8.3, 9.7], [np.pi / 2, 1.9 if number == 14 else np.pi / 2, np.pi / 2]) if number != 146 else UnitCell.rhombohedral(7.0, 1.2)
+            c0 = Crystal(cell, sg, AsymmetricUnit([Element["C"], Element["O"]], np.array([[0.11, 0.23, 0.37], [0.6, 0.05, 0.9]]), labels=np.array(["C1", "O2"]),
+                                                  occupation=np.array([1.0, 0.5])))
+            written_doc = c0.to_cif_data()
+            block = written_doc if "cell_length_a" in written_doc else next(iter(written_doc.values()))       # {data block name: items}
+            rec = Recording(block)
+            try:
+                c1 = Crystal.from_cif_data(rec)
+            except Exception as e:  # noqa
+                problems.append({"setting": f"{number}:{choice}", "reader_raised": repr(e)[:160], "items_looked_for_but_not_written": sorted(rec.misses)})
+                continue
+            need = {"cell_length_a", "cell_length_b", "cell_length_c", "cell_angle_alpha", "cell_angle_beta", "cell_angle_gamma", "atom_site_label", "atom_site_type_symbol",
+                    "atom_site_fract_x", "atom_site_fract_y", "atom_site_fract_z", "atom_site_occupancy"}
+            not_consumed = sorted(need - rec.hits)
+            symm_items = {k_ for k_ in rec.hits if "symmetry" in k_ or "space_group" in k_}
+            same = (np.allclose(c1.unit_cell.parameters, c0.unit_cell.parameters) and np.allclose(c1.asymmetric_unit.positions, c0.asymmetric_unit.positions)
+                    and sorted(int(s_.integer_code) for s_ in c1.space_group.symmetry_operations) == sorted(int(s_.integer_code) for s_ in c0.space_group.symmetry_operations)
+                    and np.allclose(c1.asymmetric_unit.properties.get("occupation", [1, 1]), [1.0, 0.5]))
+            if not_consumed or not symm_items or not same:
+                problems.append({"setting": f"{number}:{choice}", "geometry_items_not_read_from_the_written_dictionary": not_consumed, "symmetry_items_read": sorted(symm_items),
+                                 "same_crystal_read_back": bool(same)})
+        return problems
+    rt = keys_runtime()
+    ctx.ground("crystal.Crystal.to_cif_data/keys.agree", not rt,
+               clause="every geometry item (cell lengths and angles, atom-site label/symbol/fract/occupancy, symmetry operations) the reader consumes is one the writer wrote, under the same name, "
+                      "and the crystal read from the written dictionary is the same (three settings, reader run on a recording dictionary)",
+               detail={"runtime_problems": rt[:3], "syntactic": {"written": sorted(written), "required_by_reader": sorted(read_required), "missing_syntactically": missing}}, witness=rt[:2], fn=f_tocif)
 
     # ----------------------------------------------------------------------------- G: SHELX labels never look like keywords
     from chmpy.core.element import _ELEMENT_DATA
@@ -202,7 +254,13 @@ def line_obligations(ctx):
     shelx_mod = source.load_module("chmpy.fmt.shelx")
     H12 = Fraction(1, 2 * 10 ** 12)
     # the format string of the ATOM lines is read from the real source of to_shelx_string
-    fmt_nodes = [n for n in ast.walk(f_toshelx.node) if isinstance(n, ast.Constant) and isinstance(n.value, str) and "{: 20.12f}" in n.value]
+    def is_atom_fmt(n):
+        return isinstance(n, ast.Constant) and isinstance(n.value, str) and n.value.count("f}") >= 3 and n.value.count("{") >= 5
+    fmt_nodes = [n for n in ast.walk(f_toshelx.node) if is_atom_fmt(n)]
+    if not fmt_nodes:
+        # the format may have been given a name at module level (a constant used by to_shelx_string)
+        used = {n.id for n in ast.walk(f_toshelx.node) if isinstance(n, ast.Name)}
+        fmt_nodes = [v for k_, v in CRmod.assigns.items() if k_ in used and is_atom_fmt(v)]
 
     def shelx_replay(m):
         from chmpy.crystal import Crystal, UnitCell, SpaceGroup, AsymmetricUnit
@@ -215,7 +273,12 @@ def line_obligations(ctx):
 
     def ob_shelx_atom():
         if len(fmt_nodes) != 1:
-            raise Unsupported("ATOM format string not found in to_shelx_string")
+            def fb():
+                r_ = shelx_replay({})
+                return None if not r_["reproduced"] else {"input": r_["native_inputs"], "observed": r_["observed"]}
+            ctx.pattern("fmt.shelx._parse_atom_line/ensures/inverse_of_written_line", False, fallback=fb, fn=f_patom,
+                        clause="an ATOM line written by to_shelx_string reads back (format string not recognised in the source: decided on the real writer and reader)")
+            return
         fmt = fmt_nodes[0].value
         sfac_idx = z3.Int("sfac")
 
